@@ -22,7 +22,7 @@ var (
 )
 
 var algBits = map[uint8][]int{
-	dns.RSASHA1: {1024}, dns.RSASHA256: {1024, 2048}, dns.RSASHA512: {1024},
+	dns.RSASHA1: {1024}, dns.RSASHA256: {1024, 2048}, dns.RSASHA512: {1024, 4096}, // 4096: the largest modulus the library accepts
 	dns.ECDSAP256SHA256: {256}, dns.ECDSAP384SHA384: {384}, dns.ED25519: {256},
 }
 
